@@ -17,8 +17,11 @@ import (
 )
 
 type Exec struct {
+	qInst       []func(idx string) string // instantiators of quantified hypotheses (see instantiateAt)
+	qDone       map[string]bool
+	qRegister   bool
 	assertHits  map[int]int // site assertion (index in the contract) -> number of call sites it matched
-	refBound    string // allocation bound for references inside objects described by validFacts (default: entry)
+	refBound    string      // allocation bound for references inside objects described by validFacts (default: entry)
 	envCalls    map[string]bool
 	entryBinds  []Val
 	cutParts    map[string][]string
